@@ -28,7 +28,8 @@ MIN_EVALS = {'law': {'quick': 5000, 'thorough': 100000}, 'refmodel': {'quick': 5
 
 POSES = ['SO2', 'SE2', 'SO3', 'SE3']
 ALL = POSES + ['UnitQuaternion', 'Twist2', 'Twist3']
-LAWS = ['assoc', 'identL', 'identR', 'invL', 'invR', 'antihom', 'div', 'pow', 'pow0', 'powneg', 'structinv', 'divseq', 'powseq']
+LAWS = ['assoc', 'identL', 'identR', 'invL', 'invR', 'antihom', 'div', 'pow', 'pow0', 'powneg', 'structinv', 'divseq', 'powseq',
+        'aug_copy', 'aug_inv', 'aug_index', 'aug_div', 'aug_pow']
 
 
 def tmag(x):
@@ -133,6 +134,41 @@ def run_law(ctx, p):
             lhs, rhs = X ** 0, I
         elif law == 'powneg':
             lhs, rhs = X ** (-n), (X ** n).inv()
+        elif law in ('aug_copy', 'aug_inv', 'aug_index', 'aug_div', 'aug_pow'):
+            # the augmented operators are the same group operations; they are applied to an object that shares its storage
+            # with another one (copy constructor, inverse, indexed element) and the law is evaluated AFTERWARDS on the
+            # objects the user still holds
+            if law == 'aug_copy':           # L = C(X); L *= Y   ->   L == X*Y  and afterwards (X*Y) still the same
+                first = X * Y
+                L = type(X)(X)
+                L *= Y
+                lhs, rhs = L, X * Y
+                extra = [(first, X * Y, 'X*Y before and after `L = C(X); L *= Y`')]
+            elif law == 'aug_inv':          # Q = X.inv(); Q *= X  ->  identity, and X.inv()*X still the identity afterwards
+                Q = X.inv()
+                Q *= X
+                lhs, rhs = Q, I
+                extra = [(X.inv() * X, I, 'X.inv()*X after `Q = X.inv(); Q *= X`')]
+            elif law == 'aug_index':        # E = S[1]; E *= Y  ->  S[1] unchanged
+                Sq = mk(c, [ops[1], ops[0]])
+                E = Sq[1]
+                E *= Y
+                lhs, rhs = E, X * Y
+                extra = [(Sq[1], X, 'S[1] after `E = S[1]; E *= Y`')]
+            elif law == 'aug_div':
+                L = type(X)(X)
+                L /= Y
+                lhs, rhs = L, X * Y.inv()
+                extra = [(type(X)(X), mk(c, [ops[0]]), 'X after `L = C(X); L /= Y`')]
+            else:
+                L = type(X)(X)
+                L **= n
+                lhs, rhs = L, X ** n
+                extra = [(type(X)(X), mk(c, [ops[0]]), 'X after `L = C(X); L **= n`')]
+            for got, want, what_ in extra:
+                dd = differ(c, got.data[0], want.data[0]) if len(got) == 1 and len(want) == 1 else math.inf
+                ctx.judge('law', dd <= TOL * scale_of(c, ops + [got.data[0]]), dict(sig, kind='operand_changed_by_augmented_operator'),
+                          lambda: '%s: %s differ by %.3g; operands %s' % (c, what_, dd, core.short(ops, 400)))
         elif law == 'structinv':
             return run_structinv(ctx, c, ops[0])
         else:
@@ -453,7 +489,7 @@ def run(ctx):
                 ys = [operand(rng, c) for _ in range(m)]
             p = dict(cls=c, law=law, ops=xs, ops2=ys, n=int(rng.integers(-8, 9)))
         else:
-            k = {'assoc': 3, 'antihom': 2, 'div': 2}.get(law, 1)
+            k = {'assoc': 3, 'antihom': 2, 'div': 2, 'aug_copy': 2, 'aug_index': 2, 'aug_div': 2}.get(law, 1)
             p = dict(cls=c, law=law, ops=[operand(rng, c) for _ in range(k)], n=n)
         drive(RUNNERS, ctx, 'law', p)
         if ctx.ncases % 1499 == 1:
